@@ -1120,7 +1120,7 @@ func callBuiltin(caller *frame, callpos token.Pos, fn *ssa.Builtin, args []value
 		return &caller.defers
 	}
 
-	panic("unknown built-in: " + fn.Name())
+	panic(engineError{"unknown built-in: " + fn.Name()})
 }
 
 func rangeIter(fr *frame, x value, t types.Type) iter {
